@@ -45,7 +45,7 @@ def _drive(d, script, name="script", trace=False, nocatch=False, timeout=120, sy
     if small_stack:
         cmd = ["sh", "-c", 'ulimit -s 1024; exec "$@"', "sh"] + cmd
     env = None if symbolize else {"ASAN_OPTIONS": core.SAN_ENV["ASAN_OPTIONS"] + ":symbolize=0"}
-    return core.run(cmd, timeout=timeout, env=env)
+    return ifacegen.run(cmd, timeout=timeout, env=env)
 
 
 def _ubsan_exit(r):
